@@ -169,7 +169,7 @@ def soak(rec, sub, rng):
             X = Pt if j % 2 else E1.add(Pt, T3)
             yield (lambda X=X: call(sub, L1(X)))
     soak_then_reprobe(rec, "distinct-points", [lambda: call(sub, L1(A_)), lambda: call(sub, L1(Bad)), lambda: call(sub, L1(None))], distinct_points(),
-                      soak_size(["py_ecc.bls.g2_primitives", "py_ecc.optimized_bls12_381.optimized_curve"]))
+                      soak_size(["py_ecc.bls.g2_primitives", "py_ecc.optimized_bls12_381.optimized_curve"], cap=1500))
 
 
 def replay(rec, case):
